@@ -23,10 +23,10 @@ character data = all text pieces and CDATA sections of the element, since c57545
 document element is refused by `read_event`, which keeps the nesting depth, since d51737b; `Deserializer::text`
 normalises the line ends of every text piece and CDATA section before references are resolved, since d365e05;
 attributes: `SerializeContent::attributes` / `start_of` / `attr_value` of `xml/ser.rs`, `Deserializer::attribute` of
-`xml/de.rs` over quick-xml's attribute iterator, since 1dc4ea8).
+`xml/de.rs` over quick-xml's attribute iterator, since 680006e).
 The lookahead state `peeked` / `next_slot` of `Deserializer` is the head of the remaining event list here:
 `peek_event` = look at the head, `consume_peeked` / `next_event` = drop it; `Empty` is expanded by `deEvents`.
-The field `start` of `Deserializer` (the start tag that was entered last, since 1dc4ea8) is read by generated code only
+The field `start` of `Deserializer` (the start tag that was entered last, since 680006e) is read by generated code only
 in the `let` block at the top of `deserialize_content` (the translator refuses any other place), i.e. before any further
 event is consumed: it is the start tag whose consumption made the caller hand over the content. So the raw bytes after
 its element name are an explicit argument here: `expectStart` returns them, `forEach` and the union dispatch pass
@@ -189,7 +189,7 @@ def splitAtByte (c : UInt8) : Bytes → Option (Bytes × Bytes)
 
 def startsWith (p : Bytes) (b : Bytes) : Bool := b.take p.length == p
 
-/-! ## attribute values as the serialiser writes them (`xml/ser.rs::attr_value`, since 1dc4ea8) -/
+/-! ## attribute values as the serialiser writes them (`xml/ser.rs::attr_value`, since 680006e) -/
 
 /-- `str::replace(c, ref)` for an ASCII character `c` -/
 def replaceRef (c : UInt8) (ref : Bytes) : Bytes → Bytes
@@ -222,7 +222,7 @@ every other prefix and a second prefixed attribute in one struct). As (key, raw 
 def nsDeclFor (tag : Bytes) : List (Bytes × Bytes) :=
   if startsWith xsiPrefix tag then [(xmlnsXsiKey, escapeAttr xmlnsXsi)] else []
 
-/-! ## attributes as the deserialiser reads them (`Deserializer::attribute`, since 1dc4ea8) -/
+/-! ## attributes as the deserialiser reads them (`Deserializer::attribute`, since 680006e) -/
 
 /-- one step of quick-xml's attribute iterator (`events/attributes.rs::IterState::next`; duplicate checks off, not
 HTML — the way `BytesStart::try_get_attribute` runs it) over the bytes that follow the element name.
@@ -543,7 +543,7 @@ def Lit.toVal : Lit → Val
 
 /-- the `let` block at the top of a generated struct deserialiser, on the start tag with attribute bytes `a`:
 `let mut x: Option<T> = None;` for a member read from child elements, and
-`let x: Option<T> = d.attribute("tag")?.map(T::from);` for a member bound to an attribute (since 1dc4ea8), in member
+`let x: Option<T> = d.attribute("tag")?.map(T::from);` for a member bound to an attribute (since 680006e), in member
 order (the first failing `?` decides the error) -/
 def Flds.initAcc (a : Bytes) : Flds → Except DeErr (List FVal)
   | .nil => .ok []
